@@ -533,8 +533,10 @@ func (s *Schema) compile() error {
 			return err
 		}
 		compiled := s.inner.WithOwnTypes()
-		loader.CompileAllOf(compiled)
+		// The types known to the types come first: their "allOf" rules have to be
+		// compiled as well, and the types they inherit from have to be found.
 		loader.AddUnnamedTypes(compiled)
+		loader.CompileAllOf(compiled)
 		checker.CheckRootSchema(compiled)
 		if err := checker.CheckRecursion(s.file.Name(), compiled); err != nil {
 			return err
